@@ -339,11 +339,8 @@ def rule_scaling(ctx, repo):
                                       "$M[self.nz_counts:, :self.nz_counts]", "$M[self.nz_counts:, self.nz_counts:]"))
     ctx.check(ok, "C08.reorder", "EIG._reorder/blocks", "2x2 partition at nz_counts",
               "reordered matrix is not partitioned at nz_counts into (fx, fy, gx, gy)", r.W())
-    z = F.method(repo, "EIG", "find_zero_states", EIG)
-    ok = Q.has("self.nz_counts = $s.dae.n - len(self.zstate_idx)", z.fn) and \
-        (Q.has("self.zstate_idx = np.where($s.dae.Tf == 0)[0]", z.fn))
-    ctx.check(ok, "C08.reorder", "EIG.find_zero_states", "zstate_idx = where(Tf == 0); nz_counts = n - #zero",
-              "zero-state bookkeeping changed", z.W())
+    # (the content of zstate_idx / nz_counts is decided by evaluation: rules/c08_eval.py, C08.reorder/EIG.find_zero_states/fresh; the first
+    # version of this rule had frozen the spelling `np.where(Tf == 0)[0]`)
 
 
 # ---- axis typing --------------------------------------------------------------------
